@@ -49,7 +49,7 @@ Definition is_out (name kind : string) (e : ev) : bool :=
   end.
 Definition count (name kind : string) : nat := List.length (filter (is_out name kind) ex_history).
 
-Example ex_runs : exists t, run_history ex_input = Some t /\ List.length t = 69%nat.
+Example ex_runs : exists t, run_history ex_input = Some t /\ List.length t = 72%nat.
 Proof. eexists. split; [reflexivity|]. vm_compute. reflexivity. Qed.
 
 (* the run is not trivial: deliveries, hand-overs (a short one included), a datagram callback, a sendto *)
